@@ -142,7 +142,7 @@ func (d *defaultValidator) validateDefaultValueValidAgainstSchema() *Result {
 					if red.HasErrorsOrWarnings() {
 						res.AddErrors(defaultValueDoesNotValidateMsg(param.Name, param.In))
 						res.Merge(red)
-					} else if red.wantsRedeemOnMerge {
+					} else if red != nil && red.wantsRedeemOnMerge { // nil when this location was skipped as already visited
 						pools.poolOfResults.RedeemResult(red)
 					}
 				}
@@ -227,7 +227,7 @@ func (d *defaultValidator) validateDefaultInResponse(resp *spec.Response, respon
 			// Additional message to make sure the context of the error is not lost
 			res.AddErrors(defaultValueInDoesNotValidateMsg(operationID, responseName))
 			res.Merge(red)
-		} else if red.wantsRedeemOnMerge {
+		} else if red != nil && red.wantsRedeemOnMerge { // nil when this location was skipped as already visited
 			pools.poolOfResults.RedeemResult(red)
 		}
 	}
